@@ -1,8 +1,9 @@
 SPECIFICATION GSpec
 CONSTANTS MaxDepth = 4
-          MaxLen = 4
+          MaxLen = 3
           Vals <- MCVals
-          Limits <- LimitsT
+          Limits <- LimitsQ
+          MaxClose = 2
           SimLen = 0
           SimLimits <- LimitsQ
 INVARIANTS Emit
